@@ -332,10 +332,13 @@ def check(pid, tier, seed, replay=None):
     for s in summaries:
         for k, v in s["events"].items():
             ev_counts[k] = ev_counts.get(k, 0) + v
+    # vacuity guards are reported only if there is no violation: a defect that panics early empties the statistics,
+    # and then the violation (with its replay file) is the finding, not the empty statistics
+    vacuity = []
     if not replay:
         for need in P.get("required_events", []):
             if ev_counts.get(need, 0) == 0:
-                raise ToolError("vacuity guard: no '%s' event was recorded" % need)
+                vacuity.append("vacuity guard: no '%s' event was recorded" % need)
     verdicts = [v for r in results for v in r["verdicts"]]
     drifts = [d for r in results for d in r["drifts"]]
     stat_tot = {}
@@ -347,7 +350,7 @@ def check(pid, tier, seed, replay=None):
     if not replay:
         for need in P.get("required_stats", []):
             if stat_tot.get(need, 0) == 0:
-                raise ToolError("vacuity guard: trace spec statistic '%s' is zero" % need)
+                vacuity.append("vacuity guard: trace spec statistic '%s' is zero" % need)
     failing_cases = {}
     for v in verdicts:
         failing_cases.setdefault(v["case"], []).append(v)
@@ -442,7 +445,11 @@ def check(pid, tier, seed, replay=None):
     if replay:
         for v in verdicts[:20]:
             log("REPLAY-VERDICT " + json.dumps(v)[:1500])
-    return 1 if violations else 0
+    if violations:
+        return 1
+    if vacuity:
+        raise ToolError("; ".join(vacuity))
+    return 0
 
 
 def main():
